@@ -42,15 +42,13 @@ def cvrp (toks : List String) : Option String := do
   | none => pure s!"demand={intsStr ds} cap=none fits=0"
   | some c => pure s!"demand={intsStr ds} cap={fracStr c} fits={bit (ds.all (fun d => demandFits d c))}"
 
-/-- `gen.opprize type | d…` (type 0 const, 1 unif, 2 dist); dmax = max of the list -/
+/-- `gen.opprize type | x…` (type 0 const, 1 unif: x = randint draws, 2 dist: x = distances, dmax = max of the list) -/
 def opprize (toks : List String) : Option String := do
   let [hd, ds] ← parseSections toks | none
   let [t] := hd | none
   let ty := if t = 0 then PrizeType.const else if t = 1 then PrizeType.unif else PrizeType.dist
   let dmax := listMax ds
-  match ds.mapM (fun d => opPrize100 ty d dmax) with
-  | none => pure "err=1"
-  | some ps => pure s!"err=0 prize={intsStr ps}"
+  pure s!"err=0 prize={intsStr (ds.map (fun d => opPrize100 ty d dmax))}"
 
 /-- `gen.pctsp numLoc pfNum pfDen` → max penalty fraction -/
 def pctsp (toks : List String) : Option String := do
@@ -154,13 +152,11 @@ def mcpclamp (toks : List String) : Option String := do
   let [mn, mx, p, q] ← ints toks | none
   pure s!"val={mcpClampFloor mn mx p.toNat q.toNat}"
 
-/-- `gen.mcprow maxSizeParam size | items…` -/
+/-- `gen.mcprow size | items…` -/
 def mcprow (toks : List String) : Option String := do
   let [hd, items] ← parseSections toks | none
-  let [ms, size] := hd | none
-  match mcpRow ms.toNat (natsOf items) size.toNat with
-  | none => pure s!"err=1 intended={natsStr (mcpRowIntended (natsOf items) size.toNat)}"
-  | some r => pure s!"err=0 row={natsStr r} intended={natsStr (mcpRowIntended (natsOf items) size.toNat)}"
+  let [size] := hd | none
+  pure s!"err=0 row={natsStr (mcpRow (natsOf items) size.toNat)}"
 
 def linesStr (ls : List (List Nat)) : String := ";".intercalate (ls.map natsStr)
 
